@@ -2,7 +2,7 @@
 import json
 import os
 
-from .. import dl, engine_tie, gen_dl, lib
+from .. import c07_gen, dl, engine_tie, gen_dl, lib
 
 PROP = "C01"
 PROP_FILE = "Props/C01.v"
@@ -20,6 +20,14 @@ def gen_cases(tier, seed):
             inp, st = gen_dl.gen_input(rng, p["rels"])
             inputs.append(inp)
             styles.append(st)
+        if i % 4 == 1:
+            # a variable bound by the first clause repeated inside the second one (adjacent or not): the equality of the columns is
+            # implied by the lookup key only while the second clause is looked up, never when the join is evaluated the other way round
+            jr = c07_gen.add_join_repeat(rng, p)
+            if jr:
+                extra = c07_gen.join_repeat_inputs(rng, p, jr)[:2]
+                inputs += extra
+                styles += ["join_repeat"] * len(extra)
         cases.append(dict(id="c01_%d" % i, prog=p, inputs=inputs, styles=styles))
     return cases
 
